@@ -124,6 +124,17 @@ def main():
     meta = PROPS[pid]
     if a.replay:
         return do_replay(pid, a.replay)
+
+    def _watchdog(*_):
+        # a check must end: a hang anywhere (solver, pool, harness) becomes a checker error, never a verdict
+        import multiprocessing
+        print(f"CHECKER-ERROR {pid}: the check exceeded its overall time budget and was stopped", flush=True)
+        for ch in multiprocessing.active_children():
+            ch.terminate()
+        os._exit(3)
+    import signal
+    signal.signal(signal.SIGALRM, _watchdog)
+    signal.alarm(int(os.environ.get("VERIF_CHECK_BUDGET_S", "1800" if tier == "quick" else "14400")))
     from pyvc import run as pyrun
     timeout = 20.0 if tier == "quick" else 90.0
     results = [] if a.no_prove else pyrun.verify(props=[pid], timeout_s=timeout, repo=REPO)
